@@ -275,7 +275,13 @@ func calculateSystemConfigMerged(oldCfg configuration.SystemCfg, configMap *core
 		clusterCfgCopy := mergedCfg.ClusterStrategy.DeepCopy()
 		if nodeStrategy.SystemStrategy != nil {
 			mergedStrategyInterface, _ := util.MergeCfg(clusterCfgCopy, nodeStrategy.SystemStrategy)
-			mergedCfg.NodeStrategies[index].SystemStrategy = mergedStrategyInterface.(*slov1alpha1.SystemStrategy)
+			mergedNodeStrategy := mergedStrategyInterface.(*slov1alpha1.SystemStrategy)
+			// TotalNetworkBandwidth is not a pointer: a node strategy that does not set it is serialized with "0",
+			// which must not override the cluster strategy
+			if nodeStrategy.SystemStrategy.TotalNetworkBandwidth.IsZero() {
+				mergedNodeStrategy.TotalNetworkBandwidth = mergedCfg.ClusterStrategy.TotalNetworkBandwidth.DeepCopy()
+			}
+			mergedCfg.NodeStrategies[index].SystemStrategy = mergedNodeStrategy
 		} else {
 			mergedCfg.NodeStrategies[index].SystemStrategy = clusterCfgCopy
 		}
